@@ -203,7 +203,7 @@ func hSetRequest(r *fw.Rng) *gnmi.SetRequest {
 		// nearly valid: well-formed paths and values, so that the request is logged and the controllers process it
 		req := &gnmi.SetRequest{}
 		tg := []string{"t1", "t2"}[r.Intn(2)]
-		leaves := []string{"/foo", "/bar", "/a/b", "/a/bc", "/c/l[k=x]/v", "/c/m[k1=1][k2=2]/v", "/cont/leaf2", "/c/l[k=x]/k"}
+		leaves := []string{"/foo", "/bar", "/a/b", "/a/bc", "/c/l[k=x]/v", "/c/m[k1=1][k2=2]/v", "/cont/leaf2", "/c/l[k=x]/k", "/c/l[k=x]/n", "/t/u64", "/t/flt", "/t/ll-str", "/c/l[k=x]/in[id=1]/w"}
 		for i := 1 + r.Intn(3); i > 0; i-- {
 			p := leaves[r.Intn(len(leaves))]
 			v := hName(r)
@@ -212,6 +212,14 @@ func hSetRequest(r *fw.Rng) *gnmi.SetRequest {
 			}
 			if r.Chance(1, 4) {
 				req.Delete = append(req.Delete, refmodel.MustParse(p).ToGNMI(tg))
+			} else if r.Chance(1, 3) {
+				// a well-formed path of the model with a value of any type and shape (an integer for a string leaf, ...)
+				u := &gnmi.Update{Path: refmodel.MustParse(p).ToGNMI(tg), Val: hValue(r)}
+				if r.Chance(1, 2) {
+					req.Replace = append(req.Replace, u)
+				} else {
+					req.Update = append(req.Update, u)
+				}
 			} else {
 				req.Update = append(req.Update, &gnmi.Update{Path: refmodel.MustParse(p).ToGNMI(tg), Val: &gnmi.TypedValue{Value: &gnmi.TypedValue_StringVal{StringVal: v}}})
 			}
